@@ -99,7 +99,7 @@ def run(ctx):
                 nontrivial.add(line)
             if len(samples) < 2 and len(line) < 500:
                 samples.append(dict(program=line))
-            if len(violations) >= 5 or len(disagreements) >= 20:
+            if len(violations) >= 5 or len(disagreements) >= ctx.dis_limit:
                 break
             if ctx.tier == "quick" and ctx.elapsed() > 45:
                 break
